@@ -29,7 +29,10 @@ type SessCfg struct {
 }
 
 func (c SessCfg) pol() int {
-	if c.V == 2 {
+	switch c.V {
+	case 0:
+		return 0
+	case 2:
 		return sim.PolV2
 	}
 	return sim.PolV3
